@@ -24,6 +24,7 @@ def formOf (j : Json) : Form :=
   | "anydir" => .anyDirName (J.strD j "n" "").toList
   | "ext" => .ext (J.strD j "n" "").toList
   | "globdir" => .globDir (J.boolD j "any" false) (J.strD j "n" "").toList
+  | "dirpath" => .dirPath ((J.strsD j "p").map String.toList)
   | _ => .exact ((J.strsD j "p").map String.toList)
 
 def showPath (p : Path) : String := String.ofList (joinPath p)
